@@ -312,6 +312,10 @@ namespace vctl {
         g_num = num;
         g_den = den;
         g_max_us = max_us;
+        // the runner can redirect the perturbation to other hook sites (e.g. the state-word hooks)
+        if (char const* e = std::getenv("VERIF_PERTURB_SITES")) filter = e;
+        if (char const* e = std::getenv("VERIF_PERTURB_MAXUS")) g_max_us = (unsigned) std::atoi(e);
+        if (char const* e = std::getenv("VERIF_PERTURB_PCT")) g_num = (unsigned) std::atoi(e);
         std::strncpy(g_filter, filter ? filter : "", sizeof(g_filter) - 1);
         pika::verif::exchange_hook(&perturb);
     }
